@@ -336,14 +336,84 @@ def _impl_one(case):
         signal.setitimer(signal.ITIMER_REAL, 0)
 
 
+def _worker(H, cases, idxs, q):
+    global _H
+    _H = H
+    for i in idxs:
+        q.put((i, _impl_one(cases[i])))
+    q.put(None)
+
+
 def run_impl(H, cases):
+    """Runs H.impl/H.oracle on every case in forked workers.  A worker that produces nothing for
+    longer than the case time limit (e.g. stuck inside a C-level regex match, where signals are
+    not delivered) is killed; its current case is recorded as IMPL-TIMEOUT and the rest continues."""
     global _H
     _H = H
     if getattr(H, "IMPL_SERIAL", False) or len(cases) < 8:
         return [_impl_one(c) for c in cases]
+    limit = getattr(H, "CASE_TIMEOUT", 20) + 10
+    nproc = getattr(H, "IMPL_PROCS", NCPU)
     ctx = multiprocessing.get_context("fork")
-    with ctx.Pool(getattr(H, "IMPL_PROCS", NCPU)) as pool:
-        return pool.map(_impl_one, cases, chunksize=max(1, len(cases) // (NCPU * 8)))
+    results = [None] * len(cases)
+    # interleaved assignment keeps the workers balanced
+    pending = [list(range(k, len(cases), nproc)) for k in range(nproc)]
+    workers = []
+
+    def start(idxs):
+        q = ctx.Queue()
+        p = ctx.Process(target=_worker, args=(H, cases, idxs, q), daemon=True)
+        p.start()
+        return {"p": p, "q": q, "idxs": idxs, "pos": 0, "t": time.time()}
+    for idxs in pending:
+        if idxs:
+            workers.append(start(idxs))
+    import queue as _queue
+    while workers:
+        progressed = False
+        for w in list(workers):
+            try:
+                while True:
+                    item = w["q"].get_nowait()
+                    progressed = True
+                    w["t"] = time.time()
+                    if item is None:
+                        w["p"].join(5)
+                        workers.remove(w)
+                        break
+                    results[item[0]] = item[1]
+                    w["pos"] += 1
+            except _queue.Empty:
+                pass
+            if w in workers and (time.time() - w["t"] > limit or not w["p"].is_alive()):
+                # stuck or died: give up on the case it was working on
+                dead = not w["p"].is_alive()
+                # drain what is left in the queue first
+                try:
+                    while True:
+                        item = w["q"].get_nowait()
+                        if item is None:
+                            break
+                        results[item[0]] = item[1]
+                        w["pos"] += 1
+                except _queue.Empty:
+                    pass
+                w["p"].kill()
+                w["p"].join(5)
+                workers.remove(w)
+                if w["pos"] < len(w["idxs"]):
+                    bad = w["idxs"][w["pos"]]
+                    if results[bad] is None:
+                        results[bad] = ("IMPL-TIMEOUT", "case did not finish within %ss on the implementation (hang / super-linear running time)%s" % (limit, " (worker died)" if dead else ""), None)
+                    rest = w["idxs"][w["pos"] + 1:]
+                    if rest:
+                        workers.append(start(rest))
+        if not progressed:
+            time.sleep(0.02)
+    for i, r in enumerate(results):
+        if r is None:
+            results[i] = ("IMPL-EXC worker lost", None, None)
+    return results
 
 
 # --------------------------------------------------------------------------
